@@ -250,7 +250,9 @@ def check_case(case):
         if not case["has_depth"]:
             df = df.drop(columns=["depth"])
 
-        df = gen.relabel(df, gen.spec_for(case))
+        # (one table in eight with labels restarting on every chromosome: target and antitarget tables concatenated without
+        # renumbering; seeded change C15o dropped the low-coverage rows by label)
+        df = gen.relabel(df, "perchrom" if gen.pick(case, "dup", 8) == 0 and "row_labels" not in case else gen.spec_for(case))
         cna = CopyNumArray(df.copy(), {"sample_id": "s"})
         before = df["log2"].values.copy()
         cna.center_all(estimator=case["estimator"], by_chrom=case["by_chrom"], skip_low=case["skip_low"],
